@@ -414,10 +414,19 @@ func init() {
 				} else {
 					p.Rest = true
 				}
-				classes[0].Methods = append(classes[0].Methods, &GMethod{Name: "nsm", Params: []GParam{p}, Ret: []string{"Int"}})
+				nsm := &GMethod{Name: "nsm", Params: []GParam{p}, Ret: []string{"Int"}}
+				if r.Bool() {
+					// ... and which may return an instance of it, or nil
+					nsm.Ret, nsm.RetNilable = []string{"Store::Entry"}, true
+				}
+				classes[0].Methods = append(classes[0].Methods, nsm)
 				entry := `{"frame":"Store","class":"Entry","instance_methods":[{"name":"val","arguments":[],"return_type":{"type":["Integer"]}}],"class_methods":[{"name":"make","arguments":[],"return_type":{"type":["Self"]}}]}`
 				long["zz_store_entry.json"] = entry
 				compact["zz_store_entry.json"] = entry
+			}
+			if r.Bool() {
+				// an array of arrays: "[[T]]" and "[TArray]"
+				classes[0].Methods = append(classes[0].Methods, &GMethod{Name: "nest", Ret: []string{"Int"}, RetArrayOf: Pick(r, []string{"Int", "String", "Float"}), RetNested: true})
 			}
 			rr := r.Sub(uint64(k))
 			for _, cl := range classes {
